@@ -1055,8 +1055,10 @@ def gen_c13(tier, seed):
                 regs = rnd_regs(r, psw_of(r.choice(allflags()), ipl=15))
                 regs[12] = sp
                 regs[9] = fp
-                mem = exc_setup(r, []) + [(DATA, [r.randrange(256) for _ in range(0x140)])] + [(0x700000, [r.randrange(256) for _ in range(0x20)])]
-                ops = setup_ops(regs, mem, code + [0x70] * 4) + ['k:3e8', 'sx', 'gr', 'rw:%x' % sp, 'rw:%x' % (sp + 4), 'sx', 'gr', 'X:b']
+                # the words at the bottom of RAM are what a pop that succeeds loads (a return address, FP, AP, saved registers):
+                # all point into the NOP sled behind the instruction, so the step after a successful return is well defined
+                mem = exc_setup(r, []) + [(DATA, [r.randrange(256) for _ in range(0x140)])] + [(0x700000, be(0x700110, 4) * 8)]
+                ops = setup_ops(regs, mem, code + [0x70] * 0x20) + ['k:3e8', 'sx', 'gr', 'rw:%x' % sp, 'rw:%x' % (sp + 4), 'sx', 'gr', 'X:b']
                 g.add(ops, 'fault-in-later-pop')
     # a zero divisor together with a faulting second source: the operands are read in order, the bus fault comes first
     for name in ('MODW3', 'MODH3', 'MODB3', 'DIVW3', 'DIVH3', 'DIVB3', 'MODW2', 'DIVW2'):
